@@ -30,7 +30,7 @@ def build_case(pts, soma, bf, k, ex, sort, dtype, api):
 
 def execute(c):
     from swcgeom.transforms import PointsToCuntzMST, PointsToMST
-    dt = np.float32 if c["dtype"] == "f32" else np.float64
+    dt = {"f32": np.float32, "f64": np.float64, "i64": np.int64, "i32": np.int32}[c["dtype"]]
     pts = np.array(c["pts"], dtype=dt)
     soma = None if not c["soma"] else np.array(c["soma"], dtype=dt)
     if c["api"] == "mst":
@@ -81,7 +81,7 @@ def lattice_cases(ctx, q):
                 if not pts:
                     continue
             api = "mst" if bf == (0, 1) and t % 3 == 0 else "cuntz"
-            c = build_case(pts, soma, bf, k, ex, sort, "f64", api)
+            c = build_case(pts, soma, bf, k, ex, sort, ["f64", "i64", "f64", "i32"][t % 4], api)       # voxel indices (integer arrays) are point clouds too
             if t % 4 == 1:
                 c["prev"] = [[list(LATTICE[0]), list(LATTICE[7])]]
             cases.append(c)
